@@ -347,6 +347,13 @@ def _wiring(chk):
             chk.check(ok, "C03.d", f"{modname}::{q}", "orbit var_dynsys is not delegated to the system's variational system",
                       sample=ri.norm_stmt(rets[0]) if rets else "")
     chk.floor("var_dynsys properties", hit, 1)
+    # the stability index reported for an eigenvalue is (lambda + 1/lambda)/2, complex for a complex quadruplet
+    lmod, lcls = ri.find_def("hiten.algorithms.linalg.backend", "_LinalgBackend")
+    lam = sp.Symbol("lam_re", real=True) + sp.I * sp.Symbol("lam_im", real=True)
+    from ..kpe import ClassRef
+    nu = S(Interp().apply(Interp().getattr(SymObj(ClassRef(lmod, lcls), {}, "backend"), "_calc_stability_index"), [lam], {}))
+    chk.check(sp.simplify(nu - (lam + 1 / lam) / 2) == 0, "C03.d", "hiten.algorithms.linalg.backend::_LinalgBackend._calc_stability_index",
+              f"stability index of a complex eigenvalue is {nu}, expected (lambda + 1/lambda)/2", sample="nu(lambda) = (lambda + 1/lambda)/2 for complex lambda")
     # the cached monodromy / stability of an orbit are dropped when its period or state changes (rule C20.e on the orbit service)
     from . import c20
     from .common import Relabel
